@@ -4,7 +4,7 @@ CONSTANTS
   Delegates <- Dlg2
   Threshold <- Thr2
   LabelSets <- LS3
-  AssignSets <- AS3
+  AssignSets <- AS2
   Titles = {0, 1, 9}
   Bodies = {0, 1}
   VerdictVals = {0, 1, 2}
@@ -16,11 +16,11 @@ CONSTANTS
   Creators <- A4
   MaxC = 2
   MaxE = 2
-  MaxR = 3
+  MaxR = 2
   MaxRC = 0
   MaxV = 0
   MaxVC = 0
-  Reactors = {4}
+  Reactors = {}
   HeadInits <- H0
   Pushers = {}
   Variant = "code"
